@@ -30,8 +30,14 @@ def run(ctx):
              "for Word, Ident, Literal and delegates for Operator")
     ctx.rule("C05.f", "SAVE writes each Line through Display and LOAD feeds each text line to "
              "Listing::load_str (-> Line::new) under the same MAX_LINE_LEN constant as enter()")
+    ctx.rule("C05.h", "push-back restores scanner state: in a scanner that un-reads a character "
+             "(VecDeque::push_front), every scanner variable that is modified only because that "
+             "character was consumed is re-assigned on the push-back path, so the token produced "
+             "equals the token the same text produces when it ends before that character (what "
+             "the lister writes)")
     ctx.rule("C05.g", "Line's Display separates number and text by exactly one blank, the blank "
              "BasicLexer::lex strips after a line number")
+    rule_h(ctx, cr)
     kw = lt.keywords(cr)
     mn = lt.minutia(cr)
     ctx.touch("lang::token::Token::scan_alphabetic", "lang::token::Token::match_minutia")
@@ -224,3 +230,136 @@ def run(ctx):
     sp = any(ch == " " for ch, _b, _d, _s, _o in lt.char_consts(lx))
     ctx.check(sp, "C05.g", "lex/strips-one-blank", lx.span,
               "lex() tests for one ' ' after the line number")
+
+
+def rule_h(ctx, cr):
+    from lib.mir import op_place
+    from rules.progress import receiver_local
+    n = 0
+    for name in ("number", "radix", "alphabetic", "minutia", "string", "whitespace"):
+        f = cr.need_fn("lang::lex::BasicLexer::" + name)
+        pbs = f.calls_matching(r"VecDeque::<T, A>::push_front$")
+        if not pbs:
+            continue
+        ctx.touch(f)
+        for pi, pb in enumerate(pbs, 1):
+            n += 1
+            pushed = op_place(pb.args[1])
+            pushed_root = None
+            if pushed is not None:
+                v = f.value_of_local(pushed["local"])
+                pushed_root = v.get("local") if v.get("k") == "multi" else pushed["local"]
+            # letters the pushed-back variable is compared with
+            sites = [(ch, b, o) for ch, b, d, sp, o in lt.char_consts(f)
+                     if ch.isalpha() and _root(f, o) == pushed_root]
+            letters = sorted({ch for ch, _b, _o in sites})
+            # edges taken only when the current character is one of those letters
+            cut = set()
+            for b in f.reachable():
+                ec = f.edge_conds(b)
+                for s2, conds in ec.items():
+                    for c in conds:
+                        src = f._cond_src.get(c)
+                        if c[0] == "eq" and c[2] is True and src and src.get("k") == "rv" and \
+                                src["rv"]["k"] == "binop" and src["rv"]["op"] == "Eq":
+                            l, r = src["rv"]["l"], src["rv"]["r"]
+                            cv = f.const_of_operand(r) or f.const_of_operand(l)
+                            who = l if f.const_of_operand(r) is not None else r
+                            if isinstance(cv, str) and cv in letters and _root(f, who) == pushed_root:
+                                cut.add((b, s2))
+            pops = f.calls_matching(r"VecDeque::<T, A>::pop_front$")
+            heads = [c.bb for c in pops if f.can_reach(c.bb, pb.bb)]
+            if not heads or not cut:
+                ctx.ok("C05.h", "%s/push_front#%d" % (f.path, pi), pb.span,
+                       "push-back is not tied to a letter test (nothing consumed conditionally)")
+                continue
+            head = heads[0]
+            # blocks reachable from the loop head without crossing a cut edge, in one iteration
+            plain = set()
+            stack = [head]
+            while stack:
+                x = stack.pop()
+                if x in plain:
+                    continue
+                plain.add(x)
+                for y in f.succ(x):
+                    if (x, y) in cut or y == head:
+                        continue
+                    stack.append(y)
+            inloop = set()
+            stack = [head]
+            while stack:
+                x = stack.pop()
+                if x in inloop:
+                    continue
+                inloop.add(x)
+                for y in f.succ(x):
+                    if y != head:
+                        stack.append(y)
+            letter_only = {b for b in inloop if b not in plain and
+                           (f.can_reach(b, pb.bb) or b == pb.bb)}
+            # region that runs only on the push-back decision: blocks dominated by the first
+            # block that (a) dominates the push-back call and (b) cannot reach the loop head
+            # without passing the push-back... approximated by: dominates pb and every path from
+            # it reaches pb
+            rets = set(f.return_blocks())
+            doms = [b for b in f.reachable() if f.dominates(b, pb.bb)]
+            doms.sort(key=lambda b: len(f.dominators().get(b, ())))
+            top = pb.bb
+            for b in doms:
+                rs = f.reach_set(b, avoid={pb.bb})
+                if head not in rs and not (rs & rets):
+                    top = b
+                    break
+            region = {b for b in f.reachable() if f.dominates(top, b)}
+            modified = {}
+            for b in letter_only - region:
+                for st in f.blocks[b]["stmts"]:
+                    if st["k"] == "assign" and not st["place"]["proj"]:
+                        nm = f.name_of_local(st["place"]["local"])
+                        if nm and len(f.defs().get(st["place"]["local"], [])) > 1:
+                            modified.setdefault(nm, st["span"])
+                c = f.call_at(b)
+                if c is not None and c.args and re.search(r"::(push|push_str|pop|clear|insert)$",
+                                                        c.callee or ""):
+                    rl, _rs = receiver_local(f, c)
+                    nm = f.name_of_local(rl) if rl is not None else None
+                    if nm:
+                        modified.setdefault(nm, c.span)
+            restored = set()
+            for b in region:
+                for st in f.blocks[b]["stmts"]:
+                    if st["k"] == "assign" and not st["place"]["proj"]:
+                        nm = f.name_of_local(st["place"]["local"])
+                        if nm:
+                            restored.add(nm)
+                c = f.call_at(b)
+                if c is not None and c.args:
+                    rl, _rs = receiver_local(f, c)
+                    nm = f.name_of_local(rl) if rl is not None else None
+                    if nm:
+                        restored.add(nm)
+            pushed_name = f.name_of_local(pushed_root) if pushed_root is not None else None
+            for nm, sp in sorted(modified.items()):
+                if nm == pushed_name:
+                    continue
+                ctx.check(nm in restored, "C05.h", "%s/push_front#%d/restores/%s" % (f.path, pi, nm),
+                          sp, "`%s` is modified for the consumed letter and re-assigned on the "
+                          "push-back path" % nm,
+                          "`%s` is modified only because %s was consumed but is not restored when "
+                          "that letter is pushed back: the literal is classified differently from "
+                          "the same digits followed by a blank, which is what LIST writes"
+                          % (nm, "/".join(letters)))
+            if not modified:
+                ctx.ok("C05.h", "%s/push_front#%d" % (f.path, pi), pb.span,
+                       "no scanner variable is modified only for the pushed-back letter")
+    ctx.floor("C05.h", "push-back sites", n, 2)
+
+
+def _root(f, o):
+    from lib.mir import op_place
+    p = op_place(o)
+    if p is None:
+        return None
+    v = f.value_of_local(p["local"])
+    return v.get("local") if v.get("k") == "multi" else p["local"]
